@@ -286,7 +286,8 @@ def run(res, a):
         jobs = [j for j in jobs if j[0] == rp.get("job")] or jobs
         runs = max(runs, 12)
     with ThreadPoolExecutor(max_workers=14) as ex:
-        results = list(ex.map(lambda j: repeat(j, runs), jobs))
+        # the compiler pipelines are cheap: twice the runs (an order that depends on a four-entry map shows in 5 of 8 runs only)
+        results = list(ex.map(lambda j: repeat(j, 2 * runs if j[0].startswith("bondgo") else runs), jobs))
     viol = []
     verilog_inputs = []
     stats = {}
